@@ -6,6 +6,7 @@ import (
 	"os"
 	"strconv"
 	"strings"
+	"sync"
 )
 
 
@@ -84,6 +85,80 @@ func extraOf(e Event, keys ...string) Event {
 		}
 	}
 	return x
+}
+
+// replayCall re-executes one recorded pure call event (used by concurrent replay)
+func replayCall(e Event, extra Event) {
+	op, _ := e["op"].(string)
+	switch op {
+	case "ByEntropy":
+		var ent []byte
+		if nilp, _ := e["ent_nil"].(bool); !nilp {
+			ent = make([]byte, int(num(e["ent_len"])))
+			copy(ent, toBytes(intsOf(e["ent"])))
+		}
+		recByEntropy(ent, num(e["lang"]), extra)
+	case "Check":
+		recCheck(fromUnits(intsOf(e["in"])), num(e["lang"]), extra)
+	case "ToSeed":
+		recToSeed(fromUnits(intsOf(e["m"])), fromUnits(intsOf(e["p"])), false, extra)
+	case "String":
+		recString(bigOf(e["n"]), extra)
+	case "NewMnemonic":
+		recNewMnemonic(bigOf(e["n"]), num(e["lang"]), extra)
+	}
+}
+
+// replayConcFile: the calls of a recorded concurrent unit, grouped by goroutine, run concurrently again
+func replayConcFile(path string) {
+	b, err := os.ReadFile(path)
+	if err != nil {
+		fatal(err)
+	}
+	var rp replayT
+	if err := json.Unmarshal(b, &rp); err != nil {
+		fatal(err)
+	}
+	concMode = true
+	byG := map[int][]Event{}
+	var alone []Event
+	for _, e := range rp.Unit {
+		if c, _ := e["conc"].(bool); !c {
+			continue
+		}
+		if op, _ := e["op"].(string); op == "NewMnemonicCall" {
+			continue
+		}
+		g := int(num(e["g"]))
+		if g == 0 {
+			alone = append(alone, e)
+		} else {
+			byG[g] = append(byG[g], e)
+		}
+	}
+	start := make(chan struct{})
+	var wg sync.WaitGroup
+	for g, evs := range byG {
+		wg.Add(1)
+		go func(g int, evs []Event) {
+			defer wg.Done()
+			<-start
+			for _, e := range evs {
+				x := extraOf(e, "argid")
+				x["g"], x["conc"] = g, true
+				replayCall(e, x)
+			}
+		}(g, evs)
+	}
+	emit(Event{"op": "ConcStart", "goroutines": len(byG)})
+	close(start)
+	wg.Wait()
+	emit(Event{"op": "ConcJoin"})
+	for _, e := range alone {
+		x := extraOf(e, "argid")
+		x["g"], x["conc"] = 0, true
+		replayCall(e, x)
+	}
 }
 
 func replayFile(path string) {
